@@ -113,6 +113,11 @@ def _unsupported_oracle(c):
 def oracle(c):
     if c.meta.get("kind") == "run-unsupported":
         return _unsupported_oracle(c)
+    if c.meta.get("kind") == "fits-exactly":
+        o = c.impl_out[0] if c.impl_out else ""
+        if not o.startswith("ok"):
+            return [Failure("oracle", PROP, f"a program of exactly 4096 instructions (it fits the instruction memory) is refused: {o[:80]}", "load:fitting-program-refused")]
+        return []
     fails = []
     for l, o in zip(c.lines, c.impl_out):
         if l.startswith("asm ") or l.startswith("toy.asm ") or l.startswith("sim.load "):
